@@ -370,11 +370,9 @@ func (tx *Tx) close() {
 		if common.VerifEnabled {
 			tx.db.verifEvent("EndWrite", tx.meta.Txid())
 		}
-		// Remove transaction ref & writer lock.
-		tx.db.rwtx = nil
-		tx.db.rwlock.Unlock()
-
-		// Merge statistics.
+		// Merge statistics. This is done before the writer lock is released,
+		// otherwise the next write transaction can publish its (newer) freelist
+		// statistics first and have them overwritten by these older ones.
 		if tx.db.stats != nil {
 			tx.db.statlock.Lock()
 			tx.db.stats.FreePageN = freelistFreeN
@@ -384,6 +382,10 @@ func (tx *Tx) close() {
 			tx.db.stats.TxStats.add(&tx.stats)
 			tx.db.statlock.Unlock()
 		}
+
+		// Remove transaction ref & writer lock.
+		tx.db.rwtx = nil
+		tx.db.rwlock.Unlock()
 	} else {
 		tx.db.removeTx(tx)
 	}
